@@ -5,3 +5,46 @@ From CiwV Require Import Sx Acc.C02.
 Theorem C02_sound : forall tr st, C02.acc tr = Accept st -> C02.P_C02 tr.
 Proof. exact C02.C02_sound. Qed.
 Print Assumptions C02_sound.
+
+(* ---- T2: the engine model (coq/Engine, tied to /repo by the stepwise correspondence check K2) keeps the clock invariant:
+   simulated time never decreases, the executed event is scheduled exactly at the current time, nothing is scheduled in the past ---- *)
+From Coq Require Import ZArith List.
+From CiwV.Engine Require Import State Engine Codec.
+From CiwV.Inv Require Import Frame Clock.
+Open Scope Z_scope.
+
+(* one executed event, for every configuration, every state satisfying the invariant and every oracle whose service and
+   inter-arrival times are non-negative *)
+Theorem event_step_clk : forall cf s s', Clock.Clk cf s -> Clock.DrawsOK (dr s) -> Engine.event_step cf s = Ok (tt, s') ->
+  Clock.Clk cf s' /\ now s <= now s'.
+Proof. exact Clock.event_step_clk. Qed.
+Print Assumptions event_step_clk.
+
+(* any number of events *)
+Theorem run_many_clk : forall cf ds s s', Clock.Clk cf s -> Forall Clock.DrawsOK ds -> Codec.run_many cf s ds = Ok s' ->
+  Clock.Clk cf s' /\ now s <= now s'.
+Proof. exact Clock.run_many_clk. Qed.
+Print Assumptions run_many_clk.
+
+(* the clock is monotone along every prefix of a run *)
+Theorem run_many_monotone : forall cf ds1 ds2 s s1 s2, Clock.Clk cf s -> Forall Clock.DrawsOK ds1 -> Forall Clock.DrawsOK ds2 ->
+  Codec.run_many cf s ds1 = Ok s1 -> Codec.run_many cf s1 ds2 = Ok s2 -> now s <= now s1 <= now s2.
+Proof. exact Clock.run_many_monotone. Qed.
+Print Assumptions run_many_monotone.
+
+(* what the invariant says, in the words of the property *)
+Theorem Clk_means : forall cf s, Clock.Clk cf s ->
+  (forall row e, In row (a_dates (arr s)) -> In (Some e) row -> now s <= e) /\
+  (forall row d, In row (a_dates (arr s)) -> In d row -> Clock.dle (a_next_date (arr s)) d) /\ Clock.Loc (arr s) /\
+  (forall nd e, In nd (nodes s) -> n_next_date nd = Some e -> now s <= e) /\
+  (forall nd sv e, In nd (nodes s) -> Clock.fin cf (n_id nd) = true -> In sv (n_servers nd) -> sv_next_end sv = Some e -> now s <= e) /\
+  (next_active s = 0 -> a_next_date (arr s) = Some (now s) \/ Clock.nothing_scheduled s) /\
+  (next_active s <> 0 -> exists nd, nth_error (nodes s) (Z.to_nat (next_active s - 1)) = Some nd /\ n_id nd = next_active s /\
+                                   (n_next_date nd = Some (now s) \/ Clock.nothing_scheduled s)).
+Proof. exact Clock.Clk_means. Qed.
+Print Assumptions Clk_means.
+
+(* the executable test used by the correspondence check on the real engine's snapshots is sound for the invariant *)
+Theorem clk_b_sound : forall cf s, Clock.clk_b cf s = true -> Clock.Clk cf s.
+Proof. exact Clock.clk_b_sound. Qed.
+Print Assumptions clk_b_sound.
